@@ -29,17 +29,40 @@ def enum_class(name, variants):
     return (f"class {name}({', '.join(vs)}) {{\n  method show(): Str =\n    match this {{\n" + ",\n".join(arms) + "\n    }\n}\n")
 
 
-def case_program(case):
+def case_program(case, order="12"):
+    """order "12": the values of E1 are built (and E1 is met by the compiler) before those of E2; "21": E2 first"""
     text = "class S(val a: int) {}\n" + enum_class("E1", case["decl"]["E1"]) + enum_class("E2", case["decl"]["E2"])
-    lines = [f"    Process.println({v['build']}.show());" for v in case["e1"] + case["e2"]]
+    vals = case["e1"] + case["e2"] if order == "12" else case["e2"] + case["e1"]
+    lines = [f"    Process.println({v['build']}.show());" for v in vals]
     text += "class Main {\n  function main(): unit = {\n" + "\n".join(lines) + "\n  }\n}\n"
-    return {"origin": "layout:" + json.dumps(case["decl"], sort_keys=True), "entry": "Main", "sources": {"Main": text}}
+    return {"origin": f"layout{order}:" + json.dumps(case["decl"], sort_keys=True), "entry": "Main", "sources": {"Main": text},
+            "order": order}
 
 
-def run_layout(pid, tier, d, stats):
-    """returns (violations, coverage dict)"""
-    mc = tlc("EnumLayoutMC", "EnumLayoutMC.cfg", workers=8, timeout=1500, tag=f"{pid}elmc")
-    tlc_must_pass(mc, "EnumLayout.tla model checking")
+def mutually_recursive(case):
+    d = case["decl"]
+    return any("E2" in v for v in d["E1"]) and any("E1" in v for v in d["E2"])
+
+
+def two_entry_programs(case):
+    """The declarations in a module of their own and two entry modules (each has a Main.main, so the compiler
+    lowers both) that meet the two enums in opposite orders: which one the compiler meets first is then a
+    matter of the order in which it enumerates the modules.  One program per entry point."""
+    types = "class S(val a: int) {}\n" + enum_class("E1", case["decl"]["E1"]) + enum_class("E2", case["decl"]["E2"])
+    out = []
+    mods = {}
+    for m, vals in (("M1", case["e1"] + case["e2"]), ("M2", case["e2"] + case["e1"])):
+        lines = [f"    Process.println({v['build']}.show());" for v in vals]
+        used = [c for c in ("S", "E1", "E2") if any(f"{c}." in l for l in lines)]
+        mods[m] = (f"import {{ {', '.join(used)} }} from Types;\n" if used else "") + \
+            "class Main {\n  function main(): unit = {\n" + "\n".join(lines) + "\n  }\n}\n"
+    for m in ("M1", "M2"):
+        out.append({"origin": f"layout-entries-{m}:" + json.dumps(case["decl"], sort_keys=True), "entry": m,
+                    "sources": {"Types": types, "M1": mods["M1"], "M2": mods["M2"]}})
+    return out
+
+
+def layout_cases(pid, tier):
     gen = tlc("EnumLayoutMC", "EnumLayoutGenQuick.cfg" if tier == "quick" else "EnumLayoutGen.cfg", workers=4,
               timeout=1500, tag=f"{pid}elgen")
     tlc_must_pass(gen, "EnumLayout case generation")
@@ -51,9 +74,19 @@ def run_layout(pid, tier, d, stats):
         seen.add(key)
         c["e1"], c["e2"] = c["e1"][:60], c["e2"][:60]
         cases.append(c)
+    return cases
+
+
+def run_layout(pid, tier, d, stats):
+    """returns (violations, coverage dict)"""
+    mc = tlc("EnumLayoutMC", "EnumLayoutMC.cfg", workers=8, timeout=1500, tag=f"{pid}elmc")
+    tlc_must_pass(mc, "EnumLayout.tla model checking")
+    cases = layout_cases(pid, tier)
     if tier == "quick":
         cases = cases[::3]
-    progs = [case_program(c) for c in cases]
+    # both processing orders of the model are replayed: E1 met first, E2 met first
+    cases = [dict(c, order=o) for c in cases for o in ("12", "21") if o == "12" or (c["e1"] and c["e2"])]
+    progs = [case_program(c, c["order"]) for c in cases]
     recs = pc.run_programs(d, "layout", progs, [0, 31])
     inp = os.path.join(d, "layout-progs.ndjson")
     write_ndjson(inp, [{"id": p["id"], "sources": p["sources"]} for p in progs])
@@ -71,6 +104,8 @@ def run_layout(pid, tier, d, stats):
             for k in ("wasm", "ts"):
                 if k in v:
                     out = list(v[k]["out"])
+                    if c["order"] == "21" and len(out) == len(c["e1"]) + len(c["e2"]):
+                        out = out[len(c["e2"]):] + out[:len(c["e2"])]      # back to the order of the trace row
                     if v[k]["end"]["k"] != "return":
                         out.append("<" + json.dumps(v[k]["end"]) + ">")
                     runs.append({"name": f"{b}/{k}", "out": out})
